@@ -6,8 +6,8 @@ from sx.shims import STUBS  # noqa
 from .layout import LayoutShape
 
 ID = 'C03'
-BUDGET_S = {'quick': 170, 'thorough': 2400}
-SHAPE_WALL_S = {'quick': 150, 'thorough': 1200}
+BUDGET_S = {'quick': 170, 'thorough': 3600}
+SHAPE_WALL_S = {'quick': 150, 'thorough': 3600}
 FAMILY = ('PIPE: sparse programs (<= 6 byte-producing lines of length 1..5, gaps via .org, a zone, a muted region, '
           'a predefined data block, trailing label / .org) with concrete placement; window start, end (or none) '
           'and fill symbolic, data bytes symbolic; plus symbolic placement against a concrete window')
@@ -73,7 +73,7 @@ def shapes(tier, seed):
     import random
     from . import c02
     rnd = random.Random(300 + seed)
-    for i in range(20 if tier == 'quick' else 300):
+    for i in range(20 if tier == 'quick' else 800):
         prog, syms = c02.random_program(rnd, rnd.randint(4, 8), rich_branches=False)
         out = []
         for st in prog:
